@@ -197,7 +197,7 @@ def gen_unroll(rng):
 
 
 def generate(rng, tier):
-    reps = 1 if tier == "quick" else 6
+    reps = 1 if tier == "quick" else 4
     out = []
     for _ in range(reps):
         for k in (2, 3, 4, 5):
@@ -208,11 +208,12 @@ def generate(rng, tier):
                 for nl in sorted({k - 1, k, k + 1, 2 * k + 1}):
                     if tier != "quick" or rng.random() < 0.5 or nl > k:
                         out.append(gen_fanout_struct(rng, t, k, nl))
-    n = 40 if tier == "quick" else 500
+    n = 40 if tier == "quick" else 250
     out += [gen_random(rng, "limit_fanin") for _ in range(n)] + [gen_random(rng, "limit_fanout") for _ in range(n)]
-    out += [gen_reject(rng, rng.choice(["limit_fanin", "limit_fanout"])) for _ in range(4 if tier == "quick" else 20)]
-    out += [gen_regs(rng) for _ in range(60 if tier == "quick" else 700)]
-    out += [gen_unroll(rng) for _ in range(30 if tier == "quick" else 300)]
+    out += [gen_reject(rng, rng.choice(["limit_fanin", "limit_fanout"])) for _ in range(4 if tier == "quick" else 12)]
+    out += [gen_regs(rng) for _ in range(60 if tier == "quick" else 300)]
+    out += [gen_unroll(rng) for _ in range(30 if tier == "quick" else 120)]
+    rng.shuffle(out)      # mix the kinds so that the Coq shards cost about the same
     return out
 
 
